@@ -118,6 +118,8 @@ pub enum DirOp {
     Alias { alias: String, content_of: Option<String>, len: usize },
     DirInPlace { name: String },
     SymlinkInPlace { name: String, target: String, target_content_of: Option<String> },
+    /// a second directory named `immutable`, holding the pristine files, created BEFORE <db>/immutable
+    DecoyFirst { parent: String },
 }
 
 impl DirOp {
@@ -135,6 +137,7 @@ impl DirOp {
             DirOp::Alias { alias, content_of, len } => json!({"immutable_like_alias": alias, "content_of": content_of, "len": len}),
             DirOp::DirInPlace { name } => json!({"directory_in_place_of": name}),
             DirOp::SymlinkInPlace { name, target, target_content_of } => json!({"symlink_in_place_of": name, "target": target, "target_has_content_of": target_content_of}),
+            DirOp::DecoyFirst { parent } => json!({"pristine_copy_of_all_immutables_created_first_at": format!("{parent}/immutable")}),
         }
     }
 }
@@ -178,13 +181,15 @@ pub async fn build_world(rng: &mut ChaCha20Rng, base: &Path, id: &str, force_big
     let orig = dir.join("orig");
     let imm = orig.join("immutable");
     std::fs::create_dir_all(&imm).map_err(|e| e.to_string())?;
+    // dense world: every trio from 0 up to just beyond 100000 (tiny files), to cross the point where the
+    // zero-padded five-digit names stop sorting like the numbers
     let big_numbers = force_big;
     let n_trios = if big_numbers {
-        rnd::range(rng, 4, 7)
+        100_000 + rnd::range(rng, 2, 4)
     } else {
         *rnd::pick(rng, &[3u64, 3, 4, 5, 6, 7, 8, 10, 12, 16, 24, 40])
     };
-    let first = if big_numbers { 100_000 - rnd::range(rng, 1, 3) } else { 0 };
+    let first = 0u64;
     let beacon = first + n_trios - 1;
     let extra_on_disk = rnd::below(rng, 3);
     let on_disk_last = beacon + extra_on_disk;
@@ -195,7 +200,10 @@ pub async fn build_world(rng: &mut ChaCha20Rng, base: &Path, id: &str, force_big
         for e in EXTS {
             let mut data;
             loop {
-                data = gen_content(rng, dup_world);
+                data = if big_numbers { rnd::bytes(rng, 8) } else { gen_content(rng, dup_world) };
+                if big_numbers {
+                    break;
+                }
                 if dup_world && !contents.is_empty() && rnd::chance(rng, 1, 6) {
                     let k = rnd::usize_below(rng, contents.len());
                     data = contents.values().nth(k).unwrap().clone();
@@ -204,7 +212,9 @@ pub async fn build_world(rng: &mut ChaCha20Rng, base: &Path, id: &str, force_big
                     break;
                 }
             }
-            seen.insert(data.clone());
+            if !big_numbers {
+                seen.insert(data.clone());
+            }
             let name = fname(n, e);
             common::write_file(&imm.join(&name), &data);
             contents.insert(name, data);
@@ -288,13 +298,8 @@ fn names_in(w: &World, lo: u64, hi: u64) -> Vec<String> {
 fn gen_range(rng: &mut ChaCha20Rng, w: &World) -> RangeForm {
     let (f, b) = (w.first, w.beacon);
     if w.big_numbers {
-        // Full / UpTo start at 0, which such a database does not have
-        return if rnd::chance(rng, 1, 2) {
-            RangeForm::From(rnd::range(rng, f, b))
-        } else {
-            let a = rnd::range(rng, f, b);
-            RangeForm::Range(a, rnd::range(rng, a, b))
-        };
+        let a = rnd::range(rng, 99_990, b);
+        return if rnd::chance(rng, 1, 2) { RangeForm::From(a) } else { RangeForm::Range(a, rnd::range(rng, a, b)) };
     }
     match rnd::below(rng, 4) {
         0 => RangeForm::Full,
@@ -323,7 +328,7 @@ pub const DIR_CLASSES: &[&str] = &[
     "flip", "truncate", "append", "delete", "swap_in_range", "swap_across_range", "copy_over",
     "copy_over_from_out_of_range", "foreign", "extra_files", "alias_certified_content", "alias_foreign_content",
     "dir_in_place", "symlink_to_other_certified", "symlink_to_outside_foreign", "symlink_to_same_content",
-    "out_of_range_tamper", "beyond_beacon_tamper", "multi",
+    "out_of_range_tamper", "beyond_beacon_tamper", "multi", "decoy_immutable_dir",
 ];
 pub const LIST_CLASSES: &[&str] = &[
     "list_reorder", "list_rename_order_preserving", "list_rename_arbitrary", "list_drop", "list_add_in_range",
@@ -448,6 +453,11 @@ fn gen_dir_op(rng: &mut ChaCha20Rng, w: &World, class: &str, lo: u64, hi: u64) -
             let n = w.beacon + rnd::range(rng, 1, 3);
             let name = fname(n, *rnd::pick(rng, &EXTS[..]));
             vec![DirOp::Foreign { name, len: rnd::range(rng, 0, 512) as usize }]
+        }
+        "decoy_immutable_dir" => {
+            let parent = rnd::pick(rng, &["0", "backup", "ledger", "aaa/bbb", ".cache"]).to_string();
+            let name = rnd::pick(rng, &inr).clone();
+            vec![DirOp::DecoyFirst { parent }, DirOp::Foreign { name, len: rnd::range(rng, 1, 2048) as usize }]
         }
         "multi" => {
             let mut v = vec![];
@@ -720,6 +730,7 @@ fn apply_dir_ops(rng: &mut ChaCha20Rng, w: &World, db: &Path, ops: &[DirOp]) {
                 let _ = std::fs::remove_file(imm.join(name));
                 let _ = std::fs::create_dir_all(imm.join(name));
             }
+            DirOp::DecoyFirst { .. } => {} // done before the database was copied
             DirOp::SymlinkInPlace { name, target, target_content_of } => {
                 let _ = std::fs::remove_file(imm.join(name));
                 if target.starts_with("../stash/") {
@@ -949,10 +960,25 @@ pub fn run_case(
     ident: Value,
 ) {
     let _ = common::force_remove(work);
-    let db = work.join("db");
-    if let Err(e) = common::copy_tree(&w.orig, &db) {
-        m.inconclusive(&format!("harness: cannot copy the database: {e}"));
+    // the dense 100000-trio world is only used untouched, in place (copying 300000 files per case is pointless)
+    let in_place = w.big_numbers && case.dir_ops.is_empty();
+    if w.big_numbers && !in_place {
+        m.count("not_applicable.tampering_in_dense_world");
         return;
+    }
+    let db = if in_place { w.orig.clone() } else { work.join("db") };
+    for op in &case.dir_ops {
+        if let DirOp::DecoyFirst { parent } = op {
+            for (name, data) in &w.contents {
+                common::write_file(&db.join(parent).join("immutable").join(name), data);
+            }
+        }
+    }
+    if !in_place {
+        if let Err(e) = common::copy_tree(&w.orig, &db) {
+            m.inconclusive(&format!("harness: cannot copy the database: {e}"));
+            return;
+        }
     }
     apply_dir_ops(rng, w, &db, &case.dir_ops);
     let (digests_part, how_served) = serve_digests(&work.join("srv"), &case.list_op, &w.honest_list, case.loc_kind);
@@ -974,7 +1000,8 @@ pub fn run_case(
         }
     };
     m.eval();
-    let truth = ground_truth(w, &db, lo, hi);
+    // (untouched in-place directory of the dense world: the harness wrote it, nothing to re-hash)
+    let truth = if in_place { Truth::default() } else { ground_truth(w, &db, lo, hi) };
     let must_reject_dir = truth.must_reject(case.allow_missing);
     let accepted = matches!(obs.outcome, Outcome::Accepted);
     m.count(&format!("class.{}.{}", case.class, obs.outcome.label()));
@@ -998,7 +1025,7 @@ pub fn run_case(
     let replay = json!({
         "ident": ident,
         "world": {"id": w.id, "first_immutable": w.first, "beacon_immutable": w.beacon, "last_on_disk": w.on_disk_last,
-                  "files": w.contents.iter().map(|(n, d)| json!({"name": n, "size": d.len(), "sha256": common::sha256_hex(d)})).collect::<Vec<_>>(),
+                  "files": if w.big_numbers { vec![json!("300000+ files of 8 random bytes, trios 0..=beacon")] } else { w.contents.iter().map(|(n, d)| json!({"name": n, "size": d.len(), "sha256": common::sha256_hex(d)})).collect::<Vec<_>>() },
                   "signed_merkle_root": w.root_hex, "identical_contents_present": w.dup_world},
         "requested_range": case.range.json(), "range_numbers": [lo, hi], "allow_missing": case.allow_missing,
         "directory_tampering": case.dir_ops.iter().map(|o| o.json()).collect::<Vec<_>>(),
@@ -1051,9 +1078,11 @@ pub fn run_case(
             case.class,
             describe_truth(&truth, case.allow_missing)
         );
+        m.count(&format!("flagged.{}", sig.trim_start_matches("C10 ")));
         m.violation(sig, &what, replay.clone());
     }
     if obs.verified_digests.is_some() && !list_values_ok {
+        m.count("flagged.digest list not reproducing the signed Merkle root accepted");
         m.violation(
             "C10 digest list not reproducing the signed Merkle root accepted",
             &format!("download_and_verify_digests returned Ok for a served list ({}) whose digest values are not the certified sequence", case.class),
@@ -1063,12 +1092,13 @@ pub fn run_case(
     // ---- completeness
     if untouched && !accepted {
         let sig = if w.big_numbers {
-            "C10 untouched directory rejected (immutable numbers above 99999: served names sort differently from the signed order)"
+            "C10 untouched directory rejected (database with more than 100000 immutable trios: names sort differently from the signed order)"
         } else if w.dup_world {
             "C10 untouched directory rejected (database with identical immutable file contents)"
         } else {
             "C10 untouched directory rejected"
         };
+        m.count(&format!("flagged.{}", sig.trim_start_matches("C10 ")));
         m.violation(
             sig,
             &format!("untouched copy of the certified database, honest digest list, range {:?}, allow_missing={}: outcome {}", case.range, case.allow_missing, obs.outcome.json()),
@@ -1110,6 +1140,7 @@ fn classify(case: &Case, t: &Truth) -> &'static str {
     match case.class.as_str() {
         "coordinated_rank_shift" => return "C10 digest list renamed and directory rearranged accordingly accepted (signed root does not bind file names)",
         "coordinated_modify" => return "C10 digest list not reproducing the signed Merkle root accepted",
+        "decoy_immutable_dir" => return "C10 modified immutable file accepted (another directory named immutable was digested instead)",
         _ => {}
     }
     if let Some((_, cause)) = t.wrong.first() {
@@ -1159,7 +1190,7 @@ pub fn case_plan(rng: &mut ChaCha20Rng, per_world: usize) -> Vec<String> {
     plan
 }
 
-pub fn run_shard(shard: u64, m: &mut Monitor, worlds: usize, per_world: usize, only: Option<(usize, usize)>) {
+pub fn run_shard(shard: u64, m: &mut Monitor, worlds: usize, per_world: usize, only: Option<(usize, usize)>, dense_world: bool) {
     let base = common::shard_dir(shard);
     let _ = common::force_remove(&base);
     if let Err(e) = std::fs::create_dir_all(&base) {
@@ -1169,7 +1200,9 @@ pub fn run_shard(shard: u64, m: &mut Monitor, worlds: usize, per_world: usize, o
     let rt = common::runtime();
     let client = common::build_client(None);
     let db_client = client.cardano_database_v2();
-    for wi in 0..worlds {
+    // thorough tier: shard 0 ends with one dense world of 100000+ trios (completeness cases only)
+    let total_worlds = if dense_world && shard == 0 { worlds + 1 } else { worlds };
+    for wi in 0..total_worlds {
         if let Some((ow, _)) = only {
             if ow != wi {
                 continue;
@@ -1177,8 +1210,7 @@ pub fn run_shard(shard: u64, m: &mut Monitor, worlds: usize, per_world: usize, o
         }
         let mut wrng = m.rng("c10-world", (shard << 20) | wi as u64);
         let id = format!("s{shard}w{wi}");
-        // one world in eight uses immutable numbers around 100000
-        let force_big = wi % 8 == 7;
+        let force_big = wi == worlds;
         let w = match rt.block_on(build_world(&mut wrng, &base, &id, force_big)) {
             Ok(w) => w,
             Err(e) => {
@@ -1187,14 +1219,14 @@ pub fn run_shard(shard: u64, m: &mut Monitor, worlds: usize, per_world: usize, o
             }
         };
         m.count("worlds");
-        m.count(&format!("world.trios.{}", match w.beacon - w.first + 1 { 0..=4 => "3-4", 5..=8 => "5-8", 9..=16 => "9-16", _ => "17-40" }));
+        m.count(&format!("world.trios.{}", match w.beacon - w.first + 1 { 0..=4 => "3-4", 5..=8 => "5-8", 9..=16 => "9-16", 17..=40 => "17-40", _ => "100000+" }));
         if w.dup_world {
             m.count("world.with_identical_contents");
         }
         if w.big_numbers {
-            m.count("world.numbers_around_100000");
+            m.count("world.dense_100000_trios");
         }
-        let plan = case_plan(&mut wrng, per_world);
+        let plan = if w.big_numbers { vec!["none".to_string(); 5] } else { case_plan(&mut wrng, per_world) };
         for (ci, class) in plan.iter().enumerate() {
             if let Some((_, oc)) = only {
                 if oc != ci {
@@ -1205,12 +1237,13 @@ pub fn run_shard(shard: u64, m: &mut Monitor, worlds: usize, per_world: usize, o
             // completeness cases: force each range form once
             let case = if class == "none" && ci < 5 {
                 let (f, b) = (w.first, w.beacon);
-                let a = rnd::range(&mut crng, f, b);
+                let a = if w.big_numbers { rnd::range(&mut crng, 99_990, b) } else { rnd::range(&mut crng, f, b) };
                 let range = match ci {
-                    0 if !w.big_numbers => RangeForm::Full,
+                    0 => RangeForm::Full,
                     1 => RangeForm::From(a),
-                    2 if !w.big_numbers => RangeForm::UpTo(a),
+                    2 => RangeForm::UpTo(a),
                     3 => RangeForm::Range(a, rnd::range(&mut crng, a, b)),
+                    _ if w.big_numbers => RangeForm::Range(99_998, 100_001),
                     _ => RangeForm::Range(f, b),
                 };
                 Some(Case { class: "none".into(), range, allow_missing: rnd::chance(&mut crng, 1, 4), dir_ops: vec![], list_op: ListOp::Honest, loc_kind: (ci % 4) as u8 })
